@@ -17,7 +17,8 @@ type c07url struct {
 	inPkg     map[*ssa.Function]bool
 	S         map[ssa.Value]bool // aliases of the upstream URL
 	directors map[*ssa.Function]bool
-	mustMemo  map[string]int // fn|field -> 1 computing, 2 no, 3 yes
+	mustMemo  map[string]int  // fn|field -> 1 computing, 2 no, 3 yes
+	carrier   map[string]bool // type -> a carrier struct holding the URL in one of its fields
 }
 
 // c07directorSources: the URLs whose Path a Director copies into the outgoing request (`req.URL.Path = target.Path`),
@@ -58,7 +59,7 @@ func c07directorSources(c *Ctx, directors []*ssa.Function) (seeds []ssa.Value, p
 
 func newC07url(c *Ctx, serve *ssa.Function, directors []*ssa.Function) (*c07url, bool) {
 	// the URL may be built anywhere in the repository (e.g. by a method of route.Target next to BuildRedirectURL)
-	u := &c07url{c: c, fns: c.AllFns, inPkg: map[*ssa.Function]bool{}, directors: map[*ssa.Function]bool{}, mustMemo: map[string]int{}}
+	u := &c07url{c: c, fns: c.AllFns, inPkg: map[*ssa.Function]bool{}, directors: map[*ssa.Function]bool{}, mustMemo: map[string]int{}, carrier: map[string]bool{}}
 	for _, f := range u.fns {
 		u.inPkg[f] = true
 	}
@@ -317,9 +318,10 @@ func (u *c07url) useDirect(i ssa.Instruction) bool {
 			}
 		}
 	case *ssa.MakeClosure:
+		// bound into a Director: as a captured variable, or as the receiver of a method value (`u.direct`) that carries it
 		if fn, ok := x.Fn.(*ssa.Function); ok && u.directors[unwrap(fn)] {
 			for _, b := range x.Bindings {
-				if u.S[b] {
+				if u.holds(b) {
 					return true
 				}
 			}
@@ -328,7 +330,7 @@ func (u *c07url) useDirect(i ssa.Instruction) bool {
 		// a Director that is a named function or method taking the URL
 		if sc := x.Call.StaticCallee(); sc != nil && u.directors[unwrap(sc)] {
 			for _, a := range x.Call.Args {
-				if u.S[a] {
+				if u.holds(a) {
 					return true
 				}
 			}
@@ -337,9 +339,23 @@ func (u *c07url) useDirect(i ssa.Instruction) bool {
 	return false
 }
 
+// holds: v is the upstream URL or a carrier struct (value or pointer) one of whose fields holds it.
+func (u *c07url) holds(v ssa.Value) bool {
+	if u.S[v] {
+		return true
+	}
+	k := typeStr(v.Type())
+	if r, ok := u.carrier[k]; ok {
+		return r
+	}
+	r := c07carrierOf(v.Type(), u.S)
+	u.carrier[k] = r
+	return r
+}
+
 func (u *c07url) passesAlias(cc *ssa.CallCommon) bool {
 	for _, a := range cc.Args {
-		if u.S[a] {
+		if u.holds(a) {
 			return true
 		}
 	}
